@@ -311,6 +311,8 @@ class Body:
         base = f.get("fn")
         if (base in TRANSPARENT_CALLS or path in TRANSPARENT_CALLS) and args:
             return args[0]
+        if base is not None and base.endswith("Future::poll"):
+            path = base  # keep the await idiom recognisable (resolution points at the coroutine body)
         return ("call", path, args)
 
     def term_operand(self, o, depth=0, seen=()):
@@ -506,6 +508,25 @@ def walk(term):
             for y in t:
                 if isinstance(y, tuple):
                     stack.append(y)
+
+
+def int_value(term):
+    """evaluate small constant integer terms: const, named const item, casts and +/- of those"""
+    if not isinstance(term, tuple):
+        return None
+    k = term[0]
+    if k == "const":
+        return term[1] if isinstance(term[1], int) else None
+    if k == "item":
+        return term[2] if isinstance(term[2], int) else None
+    if k == "cast":
+        return int_value(term[1])
+    if k == "bin" and term[1] in ("Add", "Sub", "BitOr", "BitAnd", "Mul", "Shl"):
+        a, b = int_value(term[2]), int_value(term[3])
+        if a is None or b is None:
+            return None
+        return {"Add": a + b, "Sub": a - b, "BitOr": a | b, "BitAnd": a & b, "Mul": a * b, "Shl": a << b if b < 64 else None}[term[1]]
+    return None
 
 
 def has(term, pred):
